@@ -420,6 +420,14 @@ pub fn run_session<C: Autocomplete + Help>(
             Op::Byte(b) => shadow_accept(&mut shadow, *b),
             _ => Shadow::None,
         };
+        // what the user sees and what the edit history amounts to, just before an Enter (C01)
+        let (visible_pre, ideal_pre): (Option<String>, Option<String>) = if key == Shadow::Key(Key::Enter) && on(P_C01) {
+            let row: String = term.rows[term.row].iter().collect();
+            let vis = if term.gave_up.is_none() && term.at_boundary() { row.strip_prefix(prompt).map(|s| s.to_string()) } else { None };
+            (vis, Some(ed.text()))
+        } else {
+            (None, None)
+        };
         if let Shadow::IllFormed(bytes) = &key {
             rep.eval();
             found!("C02", P_C02, "decoder-emitted-illformed", illformed_class(bytes), i, "decoder passed {} on as a character", show_bytes(bytes));
@@ -801,6 +809,36 @@ pub fn run_session<C: Autocomplete + Help>(
                             } else {
                                 let tag = if recs.len() > 1 { "multiple-dispatch" } else if recs.is_empty() { "no-dispatch" } else { "wrong-tokens" };
                                 found!("C01", P_C01, "dispatch", tag, i, "Enter on {:?}: handler got {}, expected {}", pre_line, show_recs(&recs), exp_desc);
+                            }
+                        }
+                        // the same against the line the edit history amounts to (ideal editor, re-synchronised only
+                        // at recall / completion) and against the line the user sees on the terminal
+                        if ok {
+                            for (which, line) in [("edit-history", &ideal_pre), ("visible-line", &visible_pre)] {
+                                if let Some(l) = line {
+                                    if l.trim_end_matches(' ') == pre_line.trim_end_matches(' ') {
+                                        continue;
+                                    }
+                                    rep.eval();
+                                    let mut ok2 = false;
+                                    for toks in ref_tokenize_set(l) {
+                                        if toks.is_empty() {
+                                            ok2 |= recs.is_empty();
+                                        } else {
+                                            let items = ref_classify(&toks[1..]);
+                                            let (is_help, is_open) = if env.help_on { help_shape(&toks[0], &items) } else { (false, false) };
+                                            if is_help || is_open {
+                                                ok2 |= recs.is_empty();
+                                            }
+                                            if !is_help && recs.len() == 1 && recs[0].name == toks[0].as_bytes() && recs[0].args == items_to_rec(&items) {
+                                                ok2 = true;
+                                            }
+                                        }
+                                    }
+                                    if !ok2 {
+                                        found!("C01", P_C01, "dispatch", format!("differs-from-{}", which), i, "Enter: the {} is {:?} but the handler got {} (the edit buffer held {:?})", which, l, show_recs(&recs), pre_line);
+                                    }
+                                }
                             }
                         }
                         // (d) line empty afterwards
